@@ -63,7 +63,8 @@ def run(verbose=False):
             continue
         allp = True
         for ob in r.obligations:
-            discharge(ob, z3_ms=10000, use_cvc5=False)
+            if ob.status is None:
+                discharge(ob, z3_ms=10000, use_cvc5=False)
             if verbose:
                 print("   ", ob.name, ob.status, "%.2fs" % ob.time)
             if ob.status != "proved":
